@@ -58,6 +58,13 @@ func (k *Checker) onReady(n *Node, rd *raft.Ready) {
 		}
 	}
 
+	// ---- C18: remember exactly what was handed out for writing
+	if len(ents) > 0 {
+		x.handedOut = append(x.handedOut, handedOut{first: ents[0].GetIndex(), ents: append([]*pb.Entry(nil), ents...), live: ents})
+		if len(x.handedOut) > 64 {
+			x.handedOut = x.handedOut[len(x.handedOut)-64:]
+		}
+	}
 	// ---- C18 model
 	k.noteEmitted(n, snap, ents)
 	if c.viol != nil {
@@ -381,7 +388,6 @@ func (k *Checker) onApplyConf(n *Node, e *pb.Entry, dec ccDecision, cs *pb.ConfS
 	if rec.conf.Joint() {
 		k.c.stats.probe("joint_config_entered")
 	}
-	k.nc[n.id].lastDisqTick = n.ticks
 }
 
 // checkConfAppend: C10 mc.one_pending / mc.autoleave_origin on entries a leader
@@ -560,7 +566,7 @@ func (k *Checker) checkReadProducer(n *Node, pre, post *raft.VerifState, ctx *ca
 func (k *Checker) onProposeCall(n *Node, tags []int, ents []*pb.Entry) {
 	for i, t := range tags {
 		if _, ok := k.proposed[t]; !ok {
-			k.proposed[t] = ents[i].GetData()
+			k.proposed[t] = append([]byte(nil), ents[i].GetData()...)
 		}
 		p := k.propState[t]
 		if p == nil {
@@ -743,6 +749,25 @@ func (k *Checker) checkTags(n *Node, x *nodeChk) {
 			t2, _, ok := parsePayload(e.GetData())
 			if !ok || t2 != p.batch[j] {
 				k.report("C20", "pi.order", n, fmt.Sprintf("batch %v: entry after tag %d at index %d is not tag %d", p.batch, p.batch[j-1], e.GetIndex(), p.batch[j]), "")
+				return
+			}
+		}
+	}
+}
+
+// checkHandedOut is C18 lg.handed_out: a write group that raft has handed to
+// the application is not changed afterwards (the application may execute it
+// any time later; the slices alias raft's memory).
+func (k *Checker) checkHandedOut(n *Node) {
+	x := k.nc[n.id]
+	for _, h := range x.handedOut {
+		k.count("lg.handed_out")
+		for i, e := range h.ents {
+			if i >= len(h.live) || h.live[i] != e {
+				if i < len(h.live) && h.live[i].GetIndex() == e.GetIndex() && h.live[i].GetTerm() == e.GetTerm() {
+					continue
+				}
+				k.report("C18", "lg.handed_out", n, fmt.Sprintf("a write group handed out earlier (entries from %d) was modified afterwards at position %d: (index=%d, term=%d) was handed out", h.first, i, e.GetIndex(), e.GetTerm()), "")
 				return
 			}
 		}
